@@ -213,3 +213,171 @@ twin('C14-twin-extra-log', 'C14',
        "        log.info(\"CLEANING UP\")\n",
        "        log.info(\"CLEANING UP\")\n"
        "        log.info(\"writing outputs\")\n")])
+
+
+# ----------------------------------------------------------------------
+# C19
+# ----------------------------------------------------------------------
+mutant('C19-result-dir-release-in-try', 'C19',
+       'tmp_result_dir is released at the end of the try body only '
+       '(the defect fixed by the F2 commit)',
+       [(P+'cli/from_specified_markers.py',
+         "        log.info(\"MAPPING FROM SPECIFIED MARKERS RAN "
+         "SUCCESSFULLY\")\n",
+         "        _clean_up(tmp_result_dir)\n"
+         "        log.info(\"MAPPING FROM SPECIFIED MARKERS RAN "
+         "SUCCESSFULLY\")\n"),
+        (P+'cli/from_specified_markers.py',
+         "        _clean_up(tmp_result_dir)\n        _clean_up(tmp_dir)\n",
+         "        _clean_up(tmp_dir)\n")],
+       'R-PAIR/tempdir/mapping-run-any-exit', 'tmp_result_dir')
+mutant('C19-no-release-tmp-dir', 'C19',
+       'run_mapping never releases its scratch directory',
+       [(P+'cli/from_specified_markers.py',
+         "        _clean_up(tmp_result_dir)\n        _clean_up(tmp_dir)\n",
+         "        _clean_up(tmp_result_dir)\n")],
+       'R-PAIR/tempdir', 'run_mapping:tmp_dir')
+mutant('C19-check-after-mkdtemp', 'C19',
+       'the explicit output-path check (which raises) sits between the '
+       'acquisition of tmp_dir and the try block',
+       [(P+'cli/from_specified_markers.py',
+         "    tmp_result_dir = None\n\n    try:\n",
+         "    tmp_result_dir = None\n\n"
+         "    if log_path is not None and not log_path.parent.is_dir():\n"
+         "        raise RuntimeError('bad log path')\n\n    try:\n")],
+       'R-PAIR/tempdir/mapping-run-any-exit', 'run_mapping:tmp_dir')
+mutant('C19-validate-no-finally', 'C19',
+       'validate_h5ad forgets to release its scratch directory',
+       [(P+'validation/validate_h5ad.py',
+         "    finally:\n        _clean_up(tmp_dir)\n\n    return result\n",
+         "    finally:\n        pass\n\n    return result\n")],
+       'R-PAIR/tempdir/normal', 'validate_h5ad')
+mutant('C19-filetracker-no-del-cleanup', 'C19',
+       'FileTracker.__del__ no longer removes its directory',
+       [(P+'file_tracker/file_tracker.py',
+         "            _clean_up(self.tmp_dir)\n", "            pass\n")],
+       'R-PAIR/tempdir', 'FileTracker')
+mutant('C19-early-return-skips-cleanup', 'C19',
+       'an early return before the cleanup at the end of the function',
+       [(P+'validation/utils.py',
+         "    else:\n        raise RuntimeError(\n"
+         "            \"Do not know how to handle encoding-type \"\n"
+         "            f\"{encoding_type}\")\n\n    _clean_up(tmp_dir)\n",
+         "    else:\n        return\n\n    _clean_up(tmp_dir)\n")],
+       'R-PAIR/tempdir/normal', 'round_x_to_integers')
+mutant('C19-open-input-append', 'C19',
+       'the non-negativity check opens the query file in append mode',
+       [(P+'validation/utils.py',
+         "    layer_key = _layer_to_layer_key(layer)\n"
+         "    with h5py.File(h5ad_path, 'r') as in_file:\n"
+         "        attrs = dict(in_file[layer_key].attrs)\n"
+         "        if 'encoding-type' not in attrs:\n"
+         "            dtype = None",
+         "    layer_key = _layer_to_layer_key(layer)\n"
+         "    with h5py.File(h5ad_path, 'a') as in_file:\n"
+         "        attrs = dict(in_file[layer_key].attrs)\n"
+         "        if 'encoding-type' not in attrs:\n"
+         "            dtype = None")],
+       'R-EFFECT/input-untouched', "query_path")
+mutant('C19-move-input', 'C19',
+       'the reference-marker stage moves (instead of reading) the '
+       'statistics file',
+       [(P+'diff_exp/markers.py',
+         "    with h5py.File(precomputed_stats_path, 'r') as in_file:\n"
+         "        n_genes = len(json.loads(\n"
+         "            in_file['col_names'][()].decode('utf-8')))\n\n"
+         "    t0 = time.time()\n\n    add_sparse_by_gene_markers_to_file(",
+         "    with h5py.File(precomputed_stats_path, 'r') as in_file:\n"
+         "        n_genes = len(json.loads(\n"
+         "            in_file['col_names'][()].decode('utf-8')))\n"
+         "    shutil.move(src=precomputed_stats_path,\n"
+         "                dst=tmp_dir / 'stats.h5')\n\n"
+         "    t0 = time.time()\n\n    add_sparse_by_gene_markers_to_file(")],
+       'R-EFFECT/input-untouched', 'precomputed_path_list')
+mutant('C19-buffer-dir-not-fresh', 'C19',
+       'the election uses the result directory itself as its buffer '
+       'directory and lists it',
+       [(P+'type_assignment/election.py',
+         "        buffer_dir = pathlib.Path(\n"
+         "                tempfile.mkdtemp(\n"
+         "                    dir=results_output_path,\n"
+         "                    prefix='results_buffer_'))\n",
+         "        buffer_dir = pathlib.Path(results_output_path)\n"),
+        (P+'cli/from_specified_markers.py',
+         "            tmp_result_dir = tempfile.mkdtemp(\n"
+         "                dir=config['tmp_dir'],\n"
+         "                prefix='result_buffer_')\n",
+         "            tmp_result_dir = config['tmp_dir']\n")],
+       'R-FRESH/listing')
+mutant('C19-shared-worker-output', 'C19',
+       'the per-worker output file of the parallel transposition is '
+       'created once, before the dispatch loop',
+       [(P+'utils/csc_to_csr_parallel.py',
+         "    path_list = []\n    process_list = []\n"
+         "    for i0 in range(0, indices_max, indices_chunk_size):\n\n"
+         "        i1 = min(indices_max, i0+indices_chunk_size)\n\n"
+         "        tmp_path = pathlib.Path(\n"
+         "                mkstemp_clean(\n"
+         "                    dir=tmp_dir,\n"
+         "                    suffix='.h5',\n"
+         "                    prefix=f'transpose_{i0}_{i1}_'))\n",
+         "    path_list = []\n    process_list = []\n"
+         "    tmp_path = pathlib.Path(\n"
+         "            mkstemp_clean(\n"
+         "                dir=tmp_dir,\n"
+         "                suffix='.h5',\n"
+         "                prefix='transpose_'))\n"
+         "    for i0 in range(0, indices_max, indices_chunk_size):\n\n"
+         "        i1 = min(indices_max, i0+indices_chunk_size)\n\n")],
+       'R-FRESH/worker-output', 'csc_to_csr_parallel')
+mutant('C19-fixed-chunk-file-name', 'C19',
+       'every mapping worker writes the same file name in the buffer '
+       'directory',
+       [(P+'type_assignment/election.py',
+         "f\"{r0}_{r1}_assignment.json\"", "\"assignment.json\"")],
+       'R-FRESH/worker-output', 'election')
+mutant('C19-write-outside-outputs', 'C19',
+       'the query-marker CLI also writes next to its query input',
+       [(P+'cli/query_markers.py',
+         "        with open(self.args['output_path'], 'w') as dst:\n",
+         "        with open(str(self.args['query_path']) + '.json', 'w')"
+         " as dst2:\n"
+         "            dst2.write('{}')\n"
+         "        with open(self.args['output_path'], 'w') as dst:\n")],
+       'R-EFFECT')
+
+twin('C19-twin-rmtree', 'C19',
+     'release with shutil.rmtree instead of _clean_up',
+     [(P+'validation/validate_h5ad.py',
+       "    finally:\n        _clean_up(tmp_dir)\n\n    return result\n",
+       "    finally:\n        import shutil\n"
+       "        shutil.rmtree(tmp_dir)\n\n    return result\n")])
+twin('C19-twin-finally-instead-of-tail', 'C19',
+     'cleanup at the end of the function becomes try/finally',
+     [(P+'utils/csc_to_csr_parallel.py',
+       "    finally:\n        _clean_up(tmp_dir)\n",
+       "    finally:\n        scratch = tmp_dir\n"
+       "        _clean_up(scratch)\n")])
+twin('C19-twin-extra-nested-tmp', 'C19',
+     'an extra temp file under an already released directory',
+     [(P+'validation/validate_h5ad.py',
+       "    original_h5ad_path = pathlib.Path(h5ad_path)\n\n",
+       "    original_h5ad_path = pathlib.Path(h5ad_path)\n"
+       "    spare_path = mkstemp_clean(dir=tmp_dir, suffix='.txt')\n"
+       "    print(spare_path)\n\n")])
+twin('C19-twin-read-input-twice', 'C19',
+     'an extra read-only open of the query file',
+     [(P+'type_assignment/election_runner.py',
+       "    if normalization == 'raw':\n",
+       "    import h5py\n"
+       "    with h5py.File(query_h5ad_path, 'r') as probe:\n"
+       "        probe.keys()\n"
+       "    if normalization == 'raw':\n")])
+twin('C19-twin-cleanup-conditional', 'C19',
+     'release guarded by `if x is not None`',
+     [(P+'cli/from_specified_markers.py',
+       "        _clean_up(tmp_result_dir)\n        _clean_up(tmp_dir)\n",
+       "        if tmp_result_dir is not None:\n"
+       "            _clean_up(tmp_result_dir)\n"
+       "        if tmp_dir is not None:\n"
+       "            _clean_up(tmp_dir)\n")])
